@@ -140,12 +140,12 @@ Proof.
     (* store p : the parameter is a fresh name of the function scope *)
     assert (Hpn0 : lookup_scopes p (locals env) = None).
     { destruct (lookup_scopes p (locals env)) eqn:E; [|reflexivity]. exfalso.
-      destruct (proj1 (proj1 Hb p) ltac:(congruence)) as [Hin|[]]. exact (Hfresh p (or_introl eq_refl) Hin). }
+      destruct (proj1 (proj1 Hb p (uname_not_hid _ Hpu)) ltac:(congruence)) as [Hin|[]]. exact (Hfresh p (or_introl eq_refl) Hin). }
     destruct (declare env s p v) as [env1 s1] eqn:Edec.
     assert (Eas : assign env s p v = (env1, s1)) by (unfold assign; rewrite Hpn0; exact Edec).
     set (i2 := mkI OP_STORE [p]) in *.
     destruct (store_rel base FT [] fcells cbf Hfck selfv name fpins env s (trc name a1 g1 i2) p v env1 s1
-                ltac:(apply Rg_trc; apply Rg_trc; exact HG) Hpu Hfv Eas) as (g2 & Hst & HG2 & Hd & Hbx & Htl).
+                ltac:(apply Rg_trc; apply Rg_trc; exact HG) Hpu Hfv Eas) as (g2 & Hst & HG2 & Hd & Hbx & Htl & _).
     set (a2 := set_ip (set_ops a1 []) (S (a_ip a1))).
     assert (R2 : xrun prog name code a g a2 g2).
     { eapply xrun_trans; [exact R1|].
@@ -254,7 +254,7 @@ Proof.
     pose proof (params_run (frames g1) fcode ps vs 0 [] [] pinsC a0 gP env0 s vs
                     ltac:(intros j i Hj; unfold fcode; cbn [Nat.mul Nat.add]; rewrite nth_error_app1; [exact Hj|apply nth_error_Some; congruence])
                     eq_refl eq_refl ltac:(intros j v Hj; exact Hj) ltac:(rewrite Eself; exact HR0) eq_refl
-                    ltac:(split; [intros x; cbn; split; [congruence|intros [[]|[]]]|intros x []])
+                    ltac:(split; [intros x _; cbn; split; [congruence|intros [[]|[]]]|intros x []])
                     Hnd ltac:(intros x _ []) Hsrc Hpnf Hfo Hlen
                     ltac:(eapply small_le; [|exact Hsm]; rewrite Hlenc; lia) Hpar) as H.
     destruct (bind_params ps vs s []) as [[sc s']|]; [|exact H].
@@ -273,7 +273,7 @@ Proof.
                 {| fid := 0; lreg := 0; fbuf := [] |} pinsC prog name (pcodeP 0 ps) tail a1 gq {| locals := [sc]; captured := cenv; cur := Some fv |} s1 fuel) as H.
   cbv zeta in H. rewrite (cblockT_ok [] 1 body FT (Some ps) false (rev ps) None _ Hok) in H. cbn [fst lreg] in H. fold fcode in H.
   rewrite pcodeP_length in H.
-  specialize (H ltac:(destruct Htail as [->|[-> He]]; [left; discriminate|right; exact He]) Hsm Hip1
+  specialize (H ltac:(destruct Htail as [->|[-> He]]; [left; discriminate|right; exact He]) Hsm (Nat.le_0_l _) Hip1
                 ltac:(rewrite (proj2 (proj2 Ha1)); reflexivity) HR1 Hb1 Hcall
                 ltac:(intros fuel' Hlt ps0 body0 cenv0 E; inversion E; subst ps0 body0 cenv0; exact (Hslf fuel' Hlt))).
   destruct (exec_block fuel {| locals := [sc]; captured := cenv; cur := Some fv |} body s1) as [sig env2 s2|fl s2|];
@@ -415,9 +415,13 @@ Proof.
     match goal with |- context [resolve ?F0 ?S0 ?i0 (?l0 ++ [I ?o0 ?a0])] =>
       change (resolve F0 S0 i0 (l0 ++ [I o0 a0])) with (resolve F0 S0 i0 (l0 ++ [CI (mkI o0 a0)])) end.
     rewrite resolve_snoc_CI. eexists. eexists. split; [rewrite !app_assoc; reflexivity|discriminate].
-  - destruct name as [x|]; [|discriminate]. destruct collide; [discriminate|]. rewrite sitems_SFrom. cbv zeta.
-    eexists. exists (I OP_DELETE_NAME_SCOPED [x; lregn (S lr)]). split; [|discriminate].
-    rewrite !app_assoc. reflexivity.
+  - rewrite sitems_SFrom. cbv zeta. destruct collide.
+    + rewrite app_nil_r.
+      match goal with |- context [resolve ?F0 ?S0 ?i0 (?l0 ++ [I ?o0 ?a0])] =>
+        change (resolve F0 S0 i0 (l0 ++ [I o0 a0])) with (resolve F0 S0 i0 (l0 ++ [CI (mkI o0 a0)])) end.
+      rewrite resolve_snoc_CI. eexists. eexists. split; [rewrite !app_assoc; reflexivity|discriminate].
+    + eexists. exists (I OP_DELETE_NAME_SCOPED [from_idn lr name; lregn (S (from_lr1 lr name))]). split; [|discriminate].
+      rewrite !app_assoc. reflexivity.
   - exists [], (CBrk (match sl with Some n => n | None => 0 end)). split; [reflexivity|discriminate].
   - exists [], (CCont (match sl with Some n => n | None => 0 end)). split; [reflexivity|discriminate].
   - destruct e as [e|]; [|discriminate]. eexists. eexists. split; [cbn [sitems]; reflexivity|reflexivity].
@@ -835,7 +839,7 @@ Proof.
     + intros c1 c1' c2 c2' H1. exfalso. exact (no_pairs_defs _ _ _ _ H1).
     + now rewrite Hou, Hro.
     + reflexivity.
-    + intros x Hx. right. cbn [lookup_scopes] in Hx. apply (assoc_dscope_in FT 0 x).
+    + intros x Hx. right. left. cbn [lookup_scopes] in Hx. apply (assoc_dscope_in FT 0 x).
       destruct (assoc x (dscope 0 FT)); [congruence|exact Hx].
     + cbn [NS lookup_scopes]. split; [intros; reflexivity|exact Logic.I].
     + split; intros ? ? [].
@@ -853,7 +857,7 @@ Proof.
       unfold lookup_fs. cbn [lookup_scopes find_in_function vars]. rewrite Ha. split; reflexivity.
     + exact Hcur.
     + reflexivity.
-  - split; [|intros x []]. intros x. rewrite Hloc. cbn [lookup_scopes]. split.
+  - split; [|intros x []]. intros x _. rewrite Hloc. cbn [lookup_scopes]. split.
     + intros H. right. apply (assoc_dscope_in FT 0 x). destruct (assoc x (dscope 0 FT)); [congruence|exact H].
     + intros [[]|H]. apply (assoc_dscope_in FT 0 x) in H. destruct (assoc x (dscope 0 FT)); [congruence|exact H].
 Qed.
@@ -1029,7 +1033,7 @@ Proof.
                 a1 g1 env1 s1 fuel0) as H.
   cbv zeta in H. rewrite (cblockT_ok path 0 main FT None false [] None _ Hok) in H. cbn [fst lreg] in H.
   fold (fmodule_code FT main) in H. fold mc in H.
-  specialize (H ltac:(left; discriminate) Hsm ltac:(rewrite (di_ip _ _ _ _ _ _ _ Hd1), dcode_length; reflexivity)
+  specialize (H ltac:(left; discriminate) Hsm (Nat.le_0_l _) ltac:(rewrite (di_ip _ _ _ _ _ _ _ Hd1), dcode_length; reflexivity)
                 (di_cb _ _ _ _ _ _ _ Hd1) HR HB
                 ltac:(intros fuel' _; apply call_ok_defs; assumption)
                 ltac:(intros fuel' _ ps0 body0 cenv0 E; discriminate)).
